@@ -16,8 +16,7 @@ use cln_rpc::model::{
 };
 use serde::{de::DeserializeOwned, Serialize};
 
-#[path = "/repo/src/rpc.rs"]
-mod real;
+include!(concat!(env!("OUT_DIR"), "/repo_rpc.rs"));
 pub use real::{ClnRpc, RpcError};
 
 use crate::sim;
